@@ -325,3 +325,26 @@ package stackage
 //@ ensures[C03:IsFull] r != nil ==> full == (cp > 0 && ulen(r) == cp - 1)
 //@ ensures[C17:IsFull.nil] r == nil ==> !full
 //@ modifies nothing
+
+// ---------------------------------------------------------------------
+// C07: Traverse(path) equals stepwise Index descent
+
+//@ func (stack).traverse
+//@ tags C07
+//@ safety C08
+//@ requires wfs(r) && okslice(indices, alloc)
+//@ let def := WalkDef(r, indices)
+//@ ensures[C07:traverse.ok] def ==> ok == WalkOk(r, indices)
+//@ ensures[C07:traverse.val] def ==> slice == WalkV(r, indices)
+//@ modifies nothing
+
+//@ func (Stack).Traverse
+//@ tags C07
+//@ safety C08,C17
+//@ requires r == nil || wf(r)
+//@ requires okslice(indices, alloc)
+//@ let def := WalkDef(hdr(r), indices)
+//@ ensures[C07:Traverse.ok] r != nil && def ==> ok == WalkOk(hdr(r), indices)
+//@ ensures[C07:Traverse.val] r != nil && def ==> slice == WalkV(hdr(r), indices)
+//@ ensures[C17:Traverse.nil] r == nil ==> slice == nil && !ok
+//@ modifies nothing
